@@ -16,8 +16,10 @@ from ..terms import valida
 from .c09 import IMPORTS
 
 PROP = "C12"
-THEOREMS = []
-FACT_LEMMAS = []
+THEOREMS = ["C12_refuses_or_is_faithful", "C12_roundtrip_same_selection", "C12_roundtrip_pure", "C12_refuses_what_it_cannot_represent",
+            "C12_serialises_the_rest", "C12_spec_form_roundtrip", "C12_fragment_inhabited"]
+DEPENDS = ['Py.v', 'Lang.v', 'Defs.v', 'Cond.v', 'Dsl.v', 'Check.v', 'DocSem.v', 'Inst.v', 'Gen/TablesGen.v', 'Gen/CallablesGen.v', 'Gen/SpecGen.v', 'Path.v', 'PathSpec.v', 'Cast.v', 'Str.v', 'SpecDefs.v', 'RuleDefs.v', 'Rule.v', 'Spec.v', 'SpecIO.v', 'Eq.v', 'FromStr.v', 'RunSpec.v', 'SpecSpell.v', 'RuleTerms.v', 'Proofs/Tie.v', 'Proofs/PyFacts.v', 'Proofs/C01Proof.v', 'Proofs/C02Proof.v', 'Proofs/C03Proof.v', 'Proofs/C04Proof.v', 'Proofs/RuleProof.v', 'Proofs/C09Proof.v', 'Proofs/C10Proof.v', 'Proofs/C11Proof.v', 'Proofs/C14Proof.v', 'Proofs/C12Proof.v', 'Properties/C12.v']
+FACT_LEMMAS = ["C12Proof / C11Proof / C10Proof table facts (closed computations on the generated tables)"]
 ASSUMPTIONS = ["Layer P models CPython's operators (pysem)"]
 
 
